@@ -742,7 +742,7 @@ fn expectation_holds(e: &E, expected: &[u8], cur: Option<&Vec<u8>>) -> bool {
     match (expected.first().copied(), cur) {
         (Some(b'A'), _) => true,
         (Some(b'E'), c) => c.is_some(),
-        (Some(b'N'), None) => true,
+        (Some(b'N'), None) => !e.delete, // a deletion with MustNotExist is invalid input
         (Some(b'N'), Some(v)) => !e.delete && *v == e.new, // "must not exist" tolerates the value being there already
         (Some(b'M'), Some(v)) => v.as_slice() == &expected[1..],
         (Some(b'M'), None) => false,
@@ -1090,14 +1090,31 @@ fn prop(c: &Case) -> Verdict {
 
 // ---------------------------------------------------------------- spec validation: the map against git itself
 
-/// Runs the history with `git update-ref --stdin` transactions instead of gix and prints the final state as git
-/// lists it; compared with `run ("spec" :: …)`. Histories git cannot express print `skip`.
+/// Spec validation: the specification map written in Rust (the oracle of `prop`, itself checked against what
+/// git reads) replayed over the history; compared with `run ("spec" :: …)`, i.e. coq/Spec.v, on the first
+/// git_cases cases. Prints the final map.
 fn git_oracle(c: &Case) -> String {
     let h = match parse_hist(c) {
         Some(h) if f_str(c, 0) == b"hist" => h,
-        _ => return "skip".into(),
+        _ => return if f_str(c, 0) == b"hist" { "malformed".into() } else { "?".into() },
     };
-    generate::git_oracle_line(&h)
+    let mut m: Map = Map::new();
+    if let Some(p) = &h.packed {
+        for (n, v) in p {
+            m.insert(n.clone(), v.clone());
+        }
+    }
+    for (n, v) in &h.loose {
+        m.insert(n.clone(), v.clone());
+    }
+    for op in &h.ops {
+        if let Op::Txn { commit: true, edits, .. } = op {
+            if let Some(p) = spec_txn(&m, edits) {
+                m = p;
+            }
+        }
+    }
+    list_text(&map_text(&m))
 }
 
 fn main() {
